@@ -122,6 +122,7 @@ type Engine struct {
 	alts         [][]Dec
 	vars         []*Term
 	varTags      []string
+	nEnv         int
 	mdl          *model
 	mdlValid     bool
 	events       []event
@@ -177,8 +178,14 @@ func (e *Engine) fresh(tag string, w int) *Term {
 	}
 	e.vars = append(e.vars, t)
 	e.varTags = append(e.varTags, tag)
+	if strings.HasPrefix(tag, "env:") {
+		// environment value (e.g. crypto/rand output): quantified by the solver
+		// but not part of the replay script, the native run draws its own
+		e.nEnv++
+		return t
+	}
 	if e.Pinned != nil {
-		i := len(e.vars) - 1
+		i := len(e.vars) - 1 - e.nEnv
 		if i < len(e.Pinned) {
 			e.addPC(tEq(t, constOf(e.Pinned[i].V, w)))
 			e.mdlValid = false
@@ -377,9 +384,12 @@ func (e *Engine) assume(c *Term) {
 }
 
 func (e *Engine) script(m *model) []ScriptVal {
-	out := make([]ScriptVal, len(e.vars))
+	out := make([]ScriptVal, 0, len(e.vars))
 	for i, v := range e.vars {
-		out[i] = ScriptVal{Tag: e.varTags[i], W: v.w, V: m.eval(v)}
+		if strings.HasPrefix(e.varTags[i], "env:") {
+			continue
+		}
+		out = append(out, ScriptVal{Tag: e.varTags[i], W: v.w, V: m.eval(v)})
 	}
 	return out
 }
@@ -496,6 +506,7 @@ func (e *Engine) resetPath(entry string, prefix []Dec) {
 	e.alts = nil
 	e.vars = nil
 	e.varTags = nil
+	e.nEnv = 0
 	e.mdl = nil
 	e.mdlValid = false
 	e.events = nil
